@@ -527,6 +527,9 @@ package cdi
 //@                        forall(k, 1 <= k && k <= len(e.AdditionalGIDs), trig(gOff[k], gOff[k] == gEnd[k-1])) &&
 //@                        forall(k, 0 <= k && k < len(e.AdditionalGIDs), trig(gEnd[k], gStart <= OffAt(gOff, k, gStart) && gEnd[k] <= gTotal && implies(xG[k] != 0, opk[OffAt(gOff, k, gStart)] == 11 && opiA[OffAt(gOff, k, gStart)] == xG[k] && gEnd[k] == OffAt(gOff, k, gStart) + 1) &&
 //@                        implies(xG[k] == 0, gEnd[k] == OffAt(gOff, k, gStart)))))
+// C03 frame of the direct writes: besides the logged operations the body itself stores only to these OCI fields
+// (the uid/gid of the local device value, the three hook lists without generator support, the RDT object).
+//@   directwrites github.com/opencontainers/runtime-spec/specs-go: LinuxDevice.UID, LinuxDevice.GID, Hooks.CreateRuntime, Hooks.CreateContainer, Hooks.StartContainer, Linux.IntelRdt
 
 // C02 oracle, from the statement: request k contributes the edits of its Spec file if no earlier resolved
 // request belongs to the same file, then the edits of the device itself. dv[k] is the device request k
@@ -1046,6 +1049,9 @@ package cdi
 //@ func scanSpecDirs$1(path string, info os.FileInfo, err error) (r error)
 //@   invariant scanFn != nil && priority >= 0 && scanMark <= allocNow()
 //@   ensures[C13] r == nil || r == filepath.SkipDir
+// only what is directly inside a configured directory is scanned: every other directory is skipped, nothing
+// else is (SkipDir for a file would make Walk skip the rest of the directory)
+//@   ensures[C01,C13] iff(r == filepath.SkipDir, info != nil && isDir(info) && path != dir)
 //@   assert at call of ReadSpec: SpecExt(path)
 
 //@ func scanSpecDirs(dirs []string, scanFn scanSpecFunc) (err error)
